@@ -210,6 +210,9 @@ def run(ctx):
     for name, data in c15_docs.archive_docs().items():          # healthy / damaged 7z, truncated tar.gz, damaged zip
         (docdir / name).write_bytes(data)
         docs["gen:" + name] = {"path": str(docdir / name), "cls": "plain", "f": "", "g": []}
+    for name, data in c15_docs.escaping_7z_docs(_abs_dir(sc / "docs.json")).items():   # stream-less entries that
+        (docdir / name).write_bytes(data)                                               # name a place outside
+        docs["gen:" + name] = {"path": str(docdir / name), "cls": "plain", "f": "", "g": []}
     for tag, path in sorted(c15_docs.make_stored_json(docdir, res_root).items()):      # stored extractions
         docs["deser:" + tag] = {"path": str(path), "cls": "deser", "f": tag, "g": []}
     for f in FONT_UNIVERSE["fonts"]:
@@ -616,14 +619,15 @@ def _registry_state():
 class _Residue:
     """process-global state the library may touch, read before and after"""
 
-    def __init__(self, tmp):
+    def __init__(self, tmp, extra=None):
         import gc
         import types
         gc.collect()
         self.tmp = tmp
         self.types = (types.FunctionType, types.BuiltinFunctionType, type)
         self.fns = self._functions()
-        self.tmp0 = sorted(os.listdir(tmp))
+        self.extra = extra                          # a directory that must never come into existence
+        self.tmp0 = self._tree()
         self.fds0 = self._fds()
         from sharepoint2text.parsing.extractors import archive_extractor as ax
         self.ax = ax
@@ -647,6 +651,18 @@ class _Residue:
                                 out[(mname, k, a)] = fv
         return out
 
+    def _tree(self):
+        """every entry below the private temp root (the temp directory proper lies three levels down, so
+        siblings / parents of an extraction directory are inside the watched tree) + the forbidden directory"""
+        out = []
+        for root in [self.tmp] + ([self.extra] if self.extra else []):
+            if self.extra and root == self.extra and os.path.lexists(root):
+                out.append("ABS:" + root)
+            for base, dirs, files in os.walk(root):
+                for n in dirs + files:
+                    out.append(("ABS:" if root == self.extra else "") + os.path.relpath(os.path.join(base, n), root))
+        return sorted(set(out) - {"a", "a/b", "a/b/t"})
+
     @staticmethod
     def _fds():
         out = {}
@@ -664,7 +680,7 @@ class _Residue:
         changed = sorted(".".join(k) for k, val in self.fns.items() if k in now and now[k] is not val)
         aes_changed = [c for c in changed if _AES_FN.match(c)]
         changed = [c for c in changed if not _AES_FN.match(c)]
-        tmp_new = sorted(set(os.listdir(self.tmp)) - set(self.tmp0))
+        tmp_new = sorted(set(self._tree()) - set(self.tmp0))
         fds = self._fds()
         fds_new = sorted(t for fd, t in fds.items() if fd not in self.fds0 and t.startswith("/")
                          and not t.startswith(("/dev/", "/proc/")))
@@ -672,12 +688,18 @@ class _Residue:
                 "tmp": not tmp_new, "tmp_new": tmp_new[:4], "fds": not fds_new, "fds_new": fds_new[:4]}
 
 
+def _abs_dir(docs_json):
+    """target directory of the absolute member names of the generated 7z archives (never to be created)"""
+    return str(Path(docs_json).parent / "abs-escape")
+
+
 def _prep_tmp(tmp):
     import tempfile
-    Path(tmp).mkdir(parents=True, exist_ok=True)
-    os.environ["TMPDIR"] = str(tmp)
+    inner = Path(tmp) / "a" / "b" / "t"             # tmp = watched private root; the temp directory lies 3 levels down
+    inner.mkdir(parents=True, exist_ok=True)
+    os.environ["TMPDIR"] = str(inner)
     tempfile.tempdir = None
-    if os.path.realpath(tempfile.gettempdir()) != os.path.realpath(str(tmp)):
+    if os.path.realpath(tempfile.gettempdir()) != os.path.realpath(str(inner)):
         raise MachineryError("cannot point the temp root at the scratch directory")
 
 
@@ -689,7 +711,7 @@ def _worker_base(docs_json, doc_id, tmp):
     import sharepoint2text  # noqa
     import pypdf._crypt_providers._fallback  # noqa: the functions the AES patch replaces exist before the snapshot
     d = json.loads(Path(docs_json).read_text())[doc_id]
-    res = _Residue(tmp)
+    res = _Residue(tmp, _abs_dir(docs_json) if "-abs." in d["path"] else None)
     sig, _first, _exc = _observe(d)
     r = res.read()
     print(json.dumps({"sig": sig, "patches": not r["aesfn"], **r}))
@@ -705,8 +727,11 @@ def _worker_hist(docs_json, inp, out, tmp):
     from ..c15_docs import glyph_projection
     docs = json.loads(Path(docs_json).read_text())
     job = json.loads(Path(inp).read_text())
-    res = _Residue(tmp)
+    # the forbidden absolute directory is shared by all processes of a run: only a process that handles an
+    # archive naming it watches it, so that the leak is attributed to the right history
+    res = _Residue(tmp, _abs_dir(docs_json) if any("-abs." in docs[i]["path"] for i in job["docs"]) else None)
     obs = []
+    tmp_first = None
     for did in job["docs"]:
         d = docs[did]
         sig, first, exc = _observe(d)
@@ -715,7 +740,11 @@ def _worker_hist(docs_json, inp, out, tmp):
             gl, cl = glyph_projection(first.get_full_text(), d["g"])
         obs.append({"did": did, "sig": sig, "exc": type(exc).__name__ if exc is not None else "", "gl": gl,
                     "cl": cl})
-    Path(out).write_text(json.dumps({"obs": obs, "residue": res.read()}))
+        if tmp_first is None and set(res._tree()) - set(res.tmp0):     # the whole private temp root, every step
+            tmp_first = did
+    r = res.read()
+    r["tmp_first_leak_after"] = tmp_first or ""
+    Path(out).write_text(json.dumps({"obs": obs, "residue": r}))
 
 
 def _worker_stress(inp, out):
